@@ -41,6 +41,9 @@ PROPS["C07"]["modules"] += ["IclModel.Props.C07Build"]
 PROPS["C06"]["modules"] += ["IclModel.Props.C07Build"]
 PROPS["C09"]["modules"] += ["IclModel.Props.C07Build"]
 PROPS["C08"]["modules"] += ["IclModel.Props.C01Walk"]
+# Reader.parseLine and its handlers translated from reader.go = the step of the reader model
+for _p in ("C04", "C18", "C03", "C05"):
+    PROPS[_p]["modules"] += ["IclModel.Props.C04Reader"]
 
 
 def sh(cmd, cwd=None, env=None, timeout=None):
